@@ -496,6 +496,8 @@ func AuditChild(n int, seed int64, tier string) int {
 	return 0
 }
 
+var statCall = regexp.MustCompile(`^\d+\s+(newfstatat|lstat|stat|statx|readlink|readlinkat)\(`)
+
 var pathArg = regexp.MustCompile(`"((?:[^"\\]|\\.)*)"`)
 
 func unescape(s string) string {
@@ -529,7 +531,7 @@ func runAudit(b core.Batch, em *core.Emitter) {
 	sc := bufio.NewScanner(f)
 	sc.Buffer(make([]byte, 1<<20), 1<<26)
 	cur, zone := -1, ""
-	calls, audited := 0, 0
+	calls, audited, ancestorLookups := 0, 0, 0
 	type viol struct {
 		idx  int
 		line string
@@ -567,6 +569,13 @@ func runAudit(b core.Batch, em *core.Emitter) {
 			calls++
 			cp := filepath.Clean(p)
 			ok := cp == zone || strings.HasPrefix(cp, zone+"/")
+			// Looking up the metadata of a directory ABOVE the zone is path resolution (the kernel does the same walk
+			// for every path; filepath.EvalSymlinks does it call by call): nothing there is read, listed, changed or
+			// disclosed. Only the stat family is excused, and only on strict ancestors of the zone.
+			if !ok && strings.HasPrefix(zone, cp+"/") && statCall.MatchString(ln) {
+				ok = true
+				ancestorLookups++
+			}
 			for _, al := range auditAllow {
 				if strings.HasPrefix(cp, al) {
 					ok = true
@@ -578,7 +587,7 @@ func runAudit(b core.Batch, em *core.Emitter) {
 		}
 		audited++
 	}
-	obs := map[string]int{"audited_system_calls": audited, "audited_path_arguments": calls, "audited_requests": len(seenCase)}
+	obs := map[string]int{"audited_system_calls": audited, "audited_path_arguments": calls, "audited_requests": len(seenCase), "metadata_lookups_on_ancestors_of_the_root": ancestorLookups}
 	if len(seenCase) == 0 {
 		em.Emit(core.Result{Case: b.Name, Verdict: core.Inconclusive, Msg: "no marker found in the trace", Obs: obs})
 		return
